@@ -395,14 +395,14 @@ func (s *Store[K, V]) policyNewEntry(hash uint64, shard *Shard[K, V], cost int64
 	})
 }
 
-func (s *Store[K, V]) policyUpdateEntry(entry *Entry[K, V], hash uint64, cost, old int64, reschedule bool, fromNVM bool) {
+func (s *Store[K, V]) policyUpdateEntry(entry *Entry[K, V], hash uint64, cost, old int64, reschedule bool) {
 	// create/update events order might change due to race,
 	// send cost change in event and apply them to entry policy weight
 	// so different order still works.
 	costChange := cost - old
 	s.sendWrite(WriteBufItem[K, V]{
 		entry: entry, code: UPDATE, costChange: costChange, rechedule: reschedule,
-		hash: hash, nvmDirty: !fromNVM,
+		hash: hash,
 	})
 }
 
@@ -446,6 +446,11 @@ func (s *Store[K, V]) setShardWithoutLock(shard *Shard[K, V], hash uint64, key K
 
 	if ok {
 		exist.value = value
+		if !nvmClean {
+			// the copy in secondary cache is stale now,
+			// entry must be written back when evicted
+			exist.nvmDirty.Store(true)
+		}
 		old := exist.weight.Swap(cost)
 		result.oldCost = old
 		return result
@@ -482,6 +487,7 @@ func (s *Store[K, V]) setShardWithoutLock(shard *Shard[K, V], hash uint64, key K
 	entry.expire.Store(expire)
 	entry.weight.Store(cost)
 	entry.policyWeight = 0
+	entry.nvmDirty.Store(false)
 	shard.set(entry.key, entry)
 	result.entry = entry
 	result.exists = false
@@ -494,7 +500,7 @@ func (s *Store[K, V]) toPolicy(result setShardResult[K, V], shard *Shard[K, V], 
 		return
 	}
 	if result.exists {
-		s.policyUpdateEntry(result.entry, hash, cost, result.oldCost, result.reschedule, nvmClean)
+		s.policyUpdateEntry(result.entry, hash, cost, result.oldCost, result.reschedule)
 	} else {
 		s.policyNewEntry(hash, shard, cost, result.entry, nvmClean)
 	}
@@ -629,7 +635,7 @@ func (s *Store[K, V]) tryRemoveEntry(entry *Entry[K, V], reason RemoveReason) bo
 
 	switch reason {
 	case EVICTED, EXPIRED:
-		if reason == EVICTED && !entry.flag.IsFromNVM() && s.secondaryCache != nil {
+		if reason == EVICTED && (!entry.flag.IsFromNVM() || entry.nvmDirty.Load()) && s.secondaryCache != nil {
 			var rn float32 = 1
 			if s.probability < 1 {
 				rn = s.rg.Float32()
@@ -744,13 +750,6 @@ func (s *Store[K, V]) sinkWrite(item WriteBufItem[K, V]) {
 			if hh != item.hash {
 				return
 			}
-		}
-
-		// entry value is overwritten and the copy in secondary cache is stale,
-		// clear the flag so entry will be written to secondary cache again on eviction.
-		// The flag is protected by policy mutex so can't be updated in Set directly.
-		if item.nvmDirty {
-			entry.flag.SetFromNVM(false)
 		}
 
 		// update entry policy weight
